@@ -117,7 +117,7 @@ def required_cells(tier):
     return ["paste:empty-left", "paste:empty-right", "paste:both-empty", "stringify", "stringify+paste", "rescan-takes-following-source",
             "name-without-paren", "recursion:direct", "recursion:mutual", "recursion:argument-borne", "variadic:0", "variadic:1",
             "variadic:many", "variadic:named", "nested-parens-in-argument", "form:define", "form:-D", "form:mixed",
-            "-D:object", "-D:empty-value", "-D:valued", "-D:function-like", "via-#if", "via-#include", "deep-chain", "class:E", "class:R"]
+            "-D:object", "-D:empty-value", "-D:valued", "-D:function-like", "via-#if", "via-#include", "re-evaluated-define", "deep-chain", "class:E", "class:R"]
 
 
 # ------------------------------------------------------------- CBI driver --
@@ -543,6 +543,57 @@ def include_class(ctx, work):
                          cells=["via-#include"], cls="include", nontrivial=(defs, inc))
 
 
+REEVAL = [
+    (["#define THIRD(a,b,c,...) c", "#define COUNT(...) THIRD(__VA_ARGS__, 2, 1, 0)"], ["COUNT(x, y) == 2", "COUNT(x) == 1"]),
+    (["#define SUM(a, rest...) a + rest"], ["SUM(1, 2 + 40) == 43", "SUM(1, 2) == 3"]),
+    (["#define FIRST(a, ...) a", "#define REST(a, ...) __VA_ARGS__"], ["FIRST(7, 8, 9) == 7", "REST(7, 8) == 8"]),
+    (["#define CAT(a,b) a##b", "#define V12 5", "#define STR(x) #x"], ["CAT(V,12) == 5", "CAT(1,2) == 12"]),
+    (["#define ID(x) x", "#define foo foo + 1"], ["ID(1) == 1", "defined(foo) && ID(2) == 2"]),
+]
+
+
+def reeval_class(ctx, work):
+    """The same #define directives are evaluated several times in one run (a header included by two translation
+    units of one platform and by a second platform): every evaluation must behave like the first (gcc per TU)."""
+    acc = ctx.acc
+    for i, (defs, exprs) in enumerate(REEVAL):
+        if not ctx.mine(i):
+            continue
+        d = os.path.join(work, f"reeval{i}")
+        shutil.rmtree(d, ignore_errors=True)
+        os.makedirs(d)
+        hdr = defs[:]
+        for k, e in enumerate(exprs):
+            hdr += [f"#if {e}", f"cbi_m_h_{k}_t;", "#else", f"cbi_m_h_{k}_f;", "#endif"]
+        with open(os.path.join(d, "v.h"), "w") as f:
+            f.write("\n".join(hdr) + "\n")
+        for t in ("t0.c", "t1.c", "t2.c"):
+            with open(os.path.join(d, t), "w") as f:
+                f.write('cbi_m_%s_1;\n#include "v.h"\ncbi_m_%s_3;\n' % (t[:2], t[:2]))
+        g = gcc.preprocess(os.path.join(d, "t0.c"))
+        if not g["ok"]:
+            acc.excluded("gcc-diagnostic", cls="reeval")
+            continue
+        hl = open(os.path.join(d, "v.h")).read().split("\n")
+        want = {n + 1 for n, ln in enumerate(hl) if ln.startswith("cbi_m_") and ln.rstrip(";") in g["markers"]}
+        try:
+            conf = {"p0": [cbi.entry(os.path.join(d, "t0.c")), cbi.entry(os.path.join(d, "t1.c"))], "p1": [cbi.entry(os.path.join(d, "t2.c"))]}
+            state, _ = cbi.run_find(d, conf)
+            lines, _ = cbi.per_line(state, os.path.join(d, "v.h"))
+            problems = []
+            for p in ("p0", "p1"):
+                got = {ln for ln, ps in lines.items() if p in ps and hl[ln - 1].startswith("cbi_m_")}
+                if got != want:
+                    problems.append({"platform": p, "expected": sorted(want), "observed": sorted(got)})
+        except Exception as e:
+            problems = [{"observed": f"{type(e).__name__}: {e}"}]
+        if problems:
+            acc.violated({"input": {"defines": defs, "exprs": exprs}, "witness": {"defines": defs, "exprs": exprs, "problems": problems}},
+                         cells=["re-evaluated-define"], cls="reeval")
+        else:
+            acc.held(cells=["re-evaluated-define"], cls="reeval", nontrivial=(defs, exprs))
+
+
 def run_shard(ctx):
     b = bounds(ctx.tier)
     drv = Driver()
@@ -571,6 +622,7 @@ def run_shard(ctx):
         process_batch(ctx, drv, batch, work)
     arith_class(ctx, drv, work)
     include_class(ctx, work)
+    reeval_class(ctx, work)
 
 
 def replay(record, ctx):
